@@ -9,7 +9,8 @@ PROPERTY = "C11"
 LEVEL = "model_checking"
 FUNCTIONS = [("pandapower.auxiliary", "sequence_to_phase"), ("pandapower.auxiliary", "phase_to_sequence"),
              ("pandapower.results_bus", "_get_p_q_results_3ph"), ("pandapower.results_bus", "write_pq_results_to_element_3ph"),
-             ("pandapower.results_bus", "write_pq_results_to_element")]
+             ("pandapower.results_bus", "write_pq_results_to_element"), ("pandapower.pf.runpp_3ph", "_load_mapping"),
+             ("pandapower.pf.runpp_3ph", "_get_elements"), ("pandapower.auxiliary", "_sum_by_group")]
 STUBS = ["the module constants a = exp(j 120 deg), a^2 are the module's own floating point values, read exactly; claims that pass through them carry a 1e-9 tolerance"]
 ASSUMPTIONS = ["sequence / phase quantities symbolic in rectangular form with |re|,|im| <= 2; element powers symbolic; scaling in [0.1, 2]"]
 OUTSIDE = ["the sequence-network iteration of runpp_3ph", "zero-sequence network building (pd2ppc_zero)", "branch results in phase quantities"]
@@ -120,9 +121,48 @@ def make_bookkeeping():
     return fn
 
 
+def make_load_mapping():
+    """forward mapping of the three-phase solver (what is injected per bus and phase) == backward mapping of the result writer
+    (what is reported per bus and phase): per-phase nodal balance of the result tables follows from the solver's balance"""
+    def fn(ctx):
+        r3 = ctx.load("pandapower.pf.runpp_3ph")
+        rb = ctx.load("pandapower.results_bus")
+        from pandapower.results import _get_aranged_lookup
+        net = copy.deepcopy(_net())
+        net.asymmetric_load.loc[0, "type"] = "delta"
+        S = {}
+        for tab in ("load", "sgen"):
+            for c, (lo, hi) in {"p_mw": (-5., 5.), "q_mvar": (-5., 5.), "scaling": (0.1, 2.)}.items():
+                vals = [ctx.var(f"{tab}{r}_{c}", lo, hi) for r in range(len(net[tab]))]
+                S[(tab, c)] = vals
+                setcol(ctx, net[tab], c, vals)
+        for tab in ("asymmetric_load", "asymmetric_sgen"):
+            for c in ("p_a_mw", "p_b_mw", "p_c_mw", "q_a_mvar", "q_b_mvar", "q_c_mvar"):
+                S[(tab, c)] = [ctx.var(f"{tab}_{c}", -5., 5.)]
+                setcol(ctx, net[tab], c, S[(tab, c)])
+            S[(tab, "scaling")] = [ctx.var(f"{tab}_scaling", 0.1, 2.)]
+            setcol(ctx, net[tab], "scaling", S[(tab, "scaling")])
+        for t in ("res_load_3ph", "res_sgen_3ph", "res_asymmetric_load_3ph", "res_asymmetric_sgen_3ph", "res_storage_3ph"):
+            if t in net:
+                net[t] = net[t].astype(object if ctx.symbolic else float)
+        from pandapower.pypower.idx_bus import PD, QD
+        ppci1 = {"bus": ctx.obj(net._ppc1["internal"]["bus"] if "internal" in net._ppc1 and "bus" in net._ppc1["internal"] else net._ppc1["bus"])}
+        Sdel, Swye = r3._load_mapping(net, ppci1)
+        ar = _get_aranged_lookup(net)
+        bus_pq = rb._get_p_q_results_3ph(net, ar)
+        lookup = net["_pd2ppc_lookups"]["bus"]
+        for k, (ph, col) in enumerate((("a", 0), ("b", 2), ("c", 4))):
+            for pb in net.bus.index:
+                inj = Sdel[k, lookup[pb]] + Swye[k, lookup[pb]]
+                ctx.eq(f"solver_injection_equals_reported_bus_power/bus{pb}_phase_{ph}.p", inj.real, bus_pq[ar[pb], col])
+                ctx.eq(f"solver_injection_equals_reported_bus_power/bus{pb}_phase_{ph}.q", inj.imag, bus_pq[ar[pb], col + 1])
+    return fn
+
+
 def instances(tier):
     return [Inst("sequence_phase_transform", make_transform(), nvars=16, samples=3, meta=dict(part="transformations")),
-            Inst("phase_power_bookkeeping", make_bookkeeping(), nvars=48, samples=2, meta=dict(part="per-phase results"))]
+            Inst("phase_power_bookkeeping", make_bookkeeping(), nvars=48, samples=2, meta=dict(part="per-phase results")),
+            Inst("solver_load_mapping", make_load_mapping(), nvars=48, samples=2, meta=dict(part="per-phase injections of the solver vs reported bus powers"))]
 
 
 LEVEL_TEXT = ("Bounded model checking of the three-phase kernels: the real sequence_to_phase / phase_to_sequence are shown to be mutually "
